@@ -59,6 +59,20 @@ def run(ctx, w):
     sub_discharge(ctx, w, S, R, reach)
     # a saved cursor outside the screen is an out-of-range index after restore: the clamp of the re-layout (C17.S5)
     c17.clamp_rule(ctx, w, S, R)
+    # the named invariant A5 (ordered, in-range margins) is itself discharged: DECSTBM validity and the reset of the margins on a height change
+    from rules import c05, prims
+    c05.margin_rules(ctx, w, S, R)
+    # the slice / index operations of the row, scroll and edit primitives cannot panic for any position with col <= cols, row < rows and any count
+    prims.row_primitives(ctx, w, S, "R11", spec=False)
+    prims.scroll_primitives(ctx, w, S, "R12", spec=False)
+    prims.buffer_edit_primitives(ctx, w, S, R, "R13", spec=False)
+    ctx.floor("R13", 1000, "buffer edit primitive evaluations")
+    c02_row_units(ctx, w, S, R)
+
+
+def c02_row_units(ctx, w, S, R):
+    from rules import c02
+    c02.row_units(ctx, w, S, R, "R14")
 
 
 # ---- R1 ---------------------------------------------------------------------------------------
